@@ -249,7 +249,9 @@ def s_registered():
 
 # strings whose *characters* stress the emitters and scanners (the look-alike spellings are the text layer's business)
 _TEXT_MENU = ["plain", "caf\u00e9", "\U0001f600 smile", "tab\there", "quote\"s' mix", "back\\slash", " lead", "trail ", "a: b", "# not a comment", "a #b",
-              "- item", "{x}", "%TAG", "\u2028sep", "multi word text", "@at", "`tick", "!bang", "&anchor", "*alias", "|", ">", "?", "''", '""', "nel\x85here", "del\x7fhere", "\u2029para", "bell\x07"]
+              "- item", "{x}", "%TAG", "\u2028sep", "multi word text", "@at", "`tick", "!bang", "&anchor", "*alias", "|", ">", "?", "''", '""', "nel\x85here", "del\x7fhere", "\u2029para", "bell\x07",
+              # spellings that some YAML/JSON reader takes for another type (the text layer decides these for all strings; here they run through every route)
+              "-1e3", "+2E5", "-1.5e3", "1e3", ".5", "-.inf", "0x1F", "0o17", "1_000", "yes", "No", "~", "null", "2001-01-01", "1:30", "0b11", "+1", "1.", "=", "<<"]
 
 
 def b_strings():
